@@ -40,6 +40,7 @@ class Check(BaseCheck):
         n_tri, n_tet, size = (24, 8, "small") if self.quick else (500, 150, "large")
         corr_fem.run_stream(drv, stats, self.seed + 7, n_tri, n_tet, size, fails, "fem correspondence (stiffness/mass vs model)",
                             dtypes=("f64", "f32", "f64"))
+        fails += corr_fem.huge_postconditions("mass", stats)
         # stand-alone routine
         k = 0
         rs = gen.rng_for(self.seed, "c02-sliver-sa")
@@ -84,6 +85,10 @@ class Check(BaseCheck):
                 yield corr_fem.case_dict("tri", v, np.roll(t, rot, axis=1), lump=bool(rot % 2), dt="f64", name="sliver")
 
     def oracle(self, case):
+        if case.get("input_class") == "huge":
+            for f in corr_fem.huge_postconditions("mass"):
+                return core.Violation("huge-mesh", f.detail + " (mesh generated by corr_fem.huge_meshes)", case)
+            return None
         kind = case["kind"]
         v = np.asarray(case["v"], dtype=np.float64); t = np.asarray(case["t"], dtype=np.int64)
         if len(np.unique(t)) != len(v):
